@@ -117,12 +117,17 @@ func TestC02bUpdateHistory(t *testing.T) {
 			if side == "svc" {
 				// a new set of healthy instances
 				svcs = nil
-				for k, m := 0, rapid.IntRange(0, 5).Draw(t, "ninst"); k < m; k++ {
+				ninst := rapid.IntRange(0, 5).Draw(t, "ninst")
+				if rapid.IntRange(0, 3).Draw(t, "large") == 0 {
+					// a configuration of several KiB (the loop reuses one buffer for all updates)
+					ninst = rapid.IntRange(100, 400).Draw(t, "ninst_large")
+				}
+				for k, m := 0, ninst; k < m; k++ {
 					svcs = append(svcs, svcInst{
 						svc:  rapid.SampledFrom([]string{"svc-a", "svc-b", "svc-c"}).Draw(t, "svc"),
 						host: rapid.SampledFrom([]string{"", "foo.com", "bar.com"}).Draw(t, "host"),
 						path: rapid.SampledFrom([]string{"/", "/a", "/a/b"}).Draw(t, "path"),
-						dst:  fmt.Sprintf("http://10.0.%d.%d:80/", i, k),
+						dst:  fmt.Sprintf("http://10.%d.%d.%d:80/", i, k/250, k%250),
 					})
 				}
 				var lines []string
@@ -133,6 +138,9 @@ func TestC02bUpdateHistory(t *testing.T) {
 				case 0:
 					bad := rapid.SampledFrom([]string{"route add broken", "rout add a / http://x/", "route add a / http://[::1", "route add a / http://h:1/ weight abc", "garbage", `route add a / http://h:1/ tags "x`}).Draw(t, "badline")
 					at := rapid.IntRange(0, len(lines)).Draw(t, "badat")
+					if rapid.Bool().Draw(t, "badearly") {
+						at = rapid.IntRange(0, min(3, len(lines))).Draw(t, "badat_early")
+					}
 					lines = append(lines[:at], append([]string{bad}, lines[at:]...)...)
 					svcs = nil // the service side is unusable as a whole now
 					svcText = strings.Join(lines, "\n")
